@@ -70,7 +70,7 @@ class Pauli(object):
         return (1/other) * self
 
     def __add__(self, other):
-        return self.as_polynomial() + other.as_polynomial()
+        return self.as_polynomial() + other
 
     def __radd__(self, other):
         return self + other
@@ -306,6 +306,11 @@ class PauliPolynomial(PauliList):
         return (1/other) * self
 
     def __add__(self, other):
+        if not isinstance(other, PauliPolynomial):
+            if isinstance(other, (Pauli, PauliList)):
+                other = other.as_polynomial()
+            else: # otherwise assuming other is a number
+                other = other * pauli_identity(self.N)
         gs = torch.cat((self.gs, other.gs), dim=0)
         ps = torch.cat((self.ps, other.ps))
         cs = torch.cat((self.cs, other.cs))
